@@ -102,9 +102,10 @@ CLAIMS = {
         note="Partial: report position and position mapping only; existence of files on disk, drivers and path printing are environment. Executes the real go/token file-set code.",
     ),
     "C20": dict(
-        text="Second sentence of the property only (a possibly-nil argument of a contracted function keeps the call result possibly nil): within the bounds the solver shows that a controlled trigger is "
+        text="First sentence, within a grammar bound: for every generated one-parameter one-result function (real parser, type checker and SSA builder executed by the symbolic executor) an inferred nonnil->nonnil contract "
+             "is shown true for ALL valuations of the nil-ness of x and of the opaque conditions by one solver query. Second sentence (a possibly-nil argument of a contracted function keeps the call result possibly nil): within the bounds the solver shows that a controlled trigger is "
              "active exactly when its controller (the call-site argument site) is nilable - whether it became nilable by a flow, by an annotation before registration, or only in the second inference round - in every order.",
-        note="Partial: K1 (truth of the inferred contract itself, functioncontracts.inferContracts over go/ssa) is not decided - see evidence.coverage.outside_bounds. "
+        note="K1 is bounded by its function grammar (no loops, calls or aggregates). The call-site bookkeeping in the assertion tree (which calls get duplicated triggers) is outside. "
              "Found and fixed (two fix: commits): pre-determined controllers and controllers determined in the second round never activated their triggers.",
     ),
 }
